@@ -616,3 +616,24 @@ class P(_WriterP):
             gs = case["groups"]
             for i in range(len(gs)):
                 yield dict(case, groups=gs[:i] + gs[i + 1:])
+
+
+# ------------------------------------------------------------------------------------------------------------------
+# The level the command line hands to the cutoff: whole `main(argv)` runs against the composed command-line model
+# (harness/cli_model.py, Model/Cli.lean), the C17 statement evaluated on every written table for the PSM level GIVEN ON
+# THE COMMAND LINE (--psm_fdr_cutoff), which is drawn independently of --protein_group_fdr_threshold: the cutoff the
+# rescue pass reported with is the first PEP whose running mean exceeds THAT level (pipeline.oracle_c17).
+# ------------------------------------------------------------------------------------------------------------------
+import cli_model as _cm  # noqa: E402
+
+_ListsP = P
+
+
+class P(_cm.CliMixin, _ListsP):
+    cli_model_share = 0.02   # ~60 of the 3 000 quick cases
+    cli_oracles = ("c17",)
+    rule = _ListsP.rule + (
+        "; 2 % of the cases run the whole command line in process (harness/cli_model.py: shipped methods, generated FASTA and "
+        "evidence files, --psm_fdr_cutoff drawn independently of --protein_group_fdr_threshold) and state C17 on the cutoff "
+        "the rescue pass of every method reported with, for the level given on the command line"
+    )
